@@ -110,6 +110,15 @@ def evaluate(c):
     # model without loads for the all-forms
     m0, d0 = cli.build_main(base + ['--excitation-pulse=1'])
     m0.compute()
+    # the END1 / END2 columns of each row name (by tag; the sign carries direction / ground, 0 marks a free end) the objects whose
+    # segments the pulse is reported with: the two halves of the pulse in the model
+    allrows = [(b['tag'], r) for b in blocks for r in b['rows']]
+    if len(allrows) == len(m0.pulses):
+        for (btag, r), p_ in zip(allrows, m0.pulses):
+            for h in (0, 1):
+                want = p_.geo[h].tag
+                if r[4 + h] != 0 and abs(r[4 + h]) != want:
+                    viol.append(('END-COLUMN', 'pulse %d (block %d): END%d column %d, but that half of the pulse lies on object %d' % (r[6], btag, h + 1, r[4 + h], want)))
     Z0 = m0.Z.copy()
     w = -1j * 50.0 / m0.m
     gndp = set(p.idx for p in m0.pulses if p.ground.any())
